@@ -315,7 +315,11 @@ def cases(draw):
                                    max_octets=draw(st.sampled_from([8, 24, 130, 300]))))
             if tag in (vber.T_OCTETS, vber.T_OPAQUE) and draw(st.integers(0, 3)) == 0:
                 h = (b"\xa5" * draw(st.sampled_from([0, 126, 127, 128, 255, 256]))).hex()
-            out.append([t, tag, h, tag == vber.T_TICKS and draw(st.booleans())])
+            as_td = tag == vber.T_TICKS and draw(st.booleans())
+            if as_td and draw(st.booleans()):
+                # everyday durations (centiseconds up to a few minutes), where float conversions lose ticks
+                h = vber.int_content(draw(st.integers(0, 30000))).hex()
+            out.append([t, tag, h, as_td])
         case["set"] = out
     else:
         case["scalars"] = draw(st.lists(long_oid(), max_size=3))
